@@ -39,6 +39,13 @@ Proof.
   destruct (ipc_ i); try assumption. destruct H4 as (H4 & _). split; [exact H4|discriminate].
 Qed.
 
+Lemma Iinv_setev h i : Iinv h i -> Iinv h (set_ev i).
+Proof.
+  intros (H1 & H2 & H3 & H4). unfold Iinv, set_ev; cbn.
+  repeat split; try lia; try reflexivity.
+  destruct (ipc_ i); try assumption. destruct H4 as (H4 & _). split; [exact H4|discriminate].
+Qed.
+
 Lemma Iinv_done h i ok : Iinv h i -> (forall b, ipc_ i <> IEnd b) ->
   Iinv h (mkIdler (ipc_ i) (seen i) (delivered i) true (Some ok)).
 Proof.
@@ -60,7 +67,7 @@ Qed.
 
 Lemma GI_step st l : GI st -> GI (istep true st l).
 Proof.
-  intros HG. destruct l as [|s n|s ok]; cbn [istep].
+  intros HG. destruct l as [|s n|s ok|s]; cbn [istep].
   - intros u i H. cbn [idlers hi] in *. rewrite nth_error_map in H.
     destruct (nth_error (idlers st) u) as [j|] eqn:Eu; [|discriminate]. inversion H; subst.
     apply Iinv_write. apply (HG u j Eu).
@@ -76,6 +83,9 @@ Proof.
       destruct (Nat.eqb u s); [inversion H; subst; apply Iinv_done; [apply (HG s j Es)|exact Hne]
                               |apply (HG u i H)]. }
     destruct (ipc_ j) eqn:Ep; try exact HG; apply Hd; discriminate.
+  - destruct (nth_error (idlers st) s) as [j|] eqn:Es; [|exact HG].
+    intros u i H. cbn [idlers hi] in *. rewrite nth_error_upd, Es in H.
+    destruct (Nat.eqb u s); [inversion H; subst; apply Iinv_setev, (HG s j Es)|apply (HG u i H)].
 Qed.
 
 Lemma GI_exec sched : forall st, GI st -> GI (iexec true st sched).
@@ -142,7 +152,7 @@ Proof.
   - exists i. cbn. repeat split; auto. lia.
   - cbn [forallb] in Hq. apply andb_true_iff in Hq as (Hl & Hr). cbn [fold_left].
     pose proof (GI_step st l HG) as HG1.
-    destruct l as [|t n|t ok]; cbn [quiet_for] in Hl; [discriminate| |].
+    destruct l as [|t n|t ok|t]; cbn [quiet_for] in Hl; [discriminate| | |].
     + (* a step of idler t *)
       cbn [istep] in *. destruct (nth_error (idlers st) t) as [j|] eqn:Et.
       * destruct (Nat.eqb_spec t s) as [->|Hne].
@@ -172,6 +182,18 @@ Proof.
       destruct Hsame as (Hn1 & Hh1).
       destruct (IH _ _ HG1 Hn1 Hd Hr) as (i' & Hn' & Hd' & Hh & Hle).
       exists i'. rewrite Hh1 in *. repeat split; auto.
+    + (* a spurious event *)
+      assert (Hsame : exists i1, nth_error (idlers (istep true st (LS t))) s = Some i1 /\
+                      idone i1 = None /\ dist (hi st) i1 = dist (hi st) i /\
+                      hi (istep true st (LS t)) = hi st).
+      { cbn [istep]. destruct (nth_error (idlers st) t) as [j|] eqn:Et; [|exists i; auto].
+        destruct (Nat.eqb_spec t s) as [->|Hne].
+        - rewrite Hn in Et. inversion Et; subst j. exists (set_ev i). cbn [idlers hi].
+          rewrite (nth_error_upd_same _ _ _ _ Hn). repeat split; auto.
+        - exists i. cbn [idlers hi]. rewrite nth_error_upd_other by congruence. auto. }
+      destruct Hsame as (i1 & Hn1 & Hd1 & Hdist & Hh1).
+      destruct (IH _ _ HG1 Hn1 Hd1 Hr) as (i' & Hn' & Hd' & Hh & Hle).
+      exists i'. rewrite Hh1 in *. repeat split; auto. unfold own_steps in *. cbn [filter]. lia.
 Qed.
 
 Lemma progress_thm k sched0 s sched :
@@ -226,7 +248,7 @@ Proof.
   unfold iexec. induction sched as [|l r IH]; intros st i HG Hn Hd Hc.
   - exists i. cbn. repeat split; auto. lia.
   - cbn [fold_left]. pose proof (GI_step st l HG) as HG1.
-    destruct l as [|t n|t b].
+    destruct l as [|t n|t b|t].
     + (* a writer: position and done flag untouched *)
       assert (Hn1 : nth_error (idlers (istep true st LW)) s = Some (set_ev i))
         by (cbn [istep idlers]; rewrite nth_error_map, Hn; reflexivity).
@@ -258,6 +280,18 @@ Proof.
             (rewrite nth_error_upd_other by congruence; exact Hn). }
       destruct (IH _ _ HG1 Hsame Hd Hc) as (i' & Hn' & Hd' & Hc' & Hle).
       exists i'. repeat split; auto.
+    + assert (Hsame : exists i1, nth_error (idlers (istep true st (LS t))) s = Some i1 /\
+                      idone i1 = Some ok /\ ipc_ i1 = ipc_ i).
+      { cbn [istep]. destruct (nth_error (idlers st) t) as [j|] eqn:Et; [|exists i; auto].
+        destruct (Nat.eqb_spec t s) as [->|Hne].
+        - rewrite Hn in Et. inversion Et; subst j. exists (set_ev i). cbn [idlers].
+          rewrite (nth_error_upd_same _ _ _ _ Hn). auto.
+        - exists i. cbn [idlers]. rewrite nth_error_upd_other by congruence. auto. }
+      destruct Hsame as (i1 & Hn1 & Hd1 & Hp1).
+      assert (Hc1 : ipc_ i1 <> ICont) by congruence.
+      destruct (IH _ _ HG1 Hn1 Hd1 Hc1) as (i' & Hn' & Hd' & Hc' & Hle).
+      exists i'. repeat split; auto. unfold edist in *. rewrite Hp1 in Hle.
+      unfold own_steps in *. cbn [filter]. exact Hle.
 Qed.
 
 (* the client's line is read in any reachable state in which the update loop of
